@@ -9,6 +9,12 @@ Local Open Scope string_scope.
 Definition sources_match : Prop :=
   kdf_salt = S_htcondor /\ kdf_info = S_keygen
   /\ claim_key_lens = [lit "32"]
+  /\ key_material_flow =
+       [lit "deriveSessionKey:hkdf.New([]byte(sessionKey))"; lit "deriveSessionKey:param0=sessionKey";
+        lit "ImportClaimSession:deriveClaimKeyInfo(_, secret)"; lit "ImportClaimSession:secret:=cid.SecSessionKey()";
+        lit "ImportFileTransferSession:deriveSessionKey(secret)"; lit "ImportFileTransferSession:secret:=cid.SecSessionKey()";
+        lit "deriveClaimKeyInfo:deriveSessionKey(secret)";
+        lit "MintClaimSession:deriveClaimKeyInfo(_, secret)"; lit "MintClaimSession:secret:=randomHexKey(secSessionKeyLengthV9)"]
   /\ strict_grammar_calls = [lit "strings.LastIndex(#)"; lit "strings.HasPrefix([)"; lit "strings.LastIndex(])"]
   /\ cipher_rewrites = [lit "ExportSecSessionInfo:,->."; lit "ImportSecSessionInfo:.->,"; lit "ImportSecSessionInfo:.->,"]
   /\ ft_prefix = S_filetrans
